@@ -900,6 +900,22 @@ def m_str_hash(I, c, s, h):
     return UNIT()
 
 
+@model('Hasher::write_usize', 'Hasher::write_u8', 'Hasher::write_u32', 'Hasher::write_u64', 'Hasher::write_length_prefix')
+def m_hasher_write_int(I, c, h, v):
+    deref_all(h).rec.append((c.method, deref_all(v)))
+    return UNIT()
+
+
+@model('Hasher::write')
+def m_hasher_write(I, c, h, b):
+    d = deref_all(b)
+    bs = list(d.items) if isinstance(d, VecVal) else list(sbytes(d))
+    hs = deref_all(h)
+    hs.rec.append(('bytes', len(bs)))
+    hs.rec.extend(deref_all(x) for x in bs)
+    return UNIT()
+
+
 @model('Hash::hash@isize', 'Hash::hash@usize', 'Hash::hash@u8', 'Hash::hash@u32', 'Hash::hash@u64')
 def m_int_hash(I, c, v, h):
     deref_all(h).rec.append((head(c.self_ty), deref_all(v)))
@@ -3088,9 +3104,10 @@ def m_string_insert_str(I, c, r, idx, s):
 
 @model('SmartString::is_inline')
 def m_ss_is_inline(I, c, r):
-    """a SmartString built from text is inline exactly when it fits the 23-byte inline buffer (64-bit targets); the lazily compacting
-    mode keeps a shortened string boxed, which this model does not track"""
-    return len(strbuf_of(r).b) <= 23
+    """a SmartString is inline while it never held more than the 23 bytes of the inline buffer (64-bit targets): the lazily compacting
+    mode keeps a string on the heap when it is shortened in place, which the buffer's high-water mark records; a fresh copy
+    (clone, collect, From<&str>) starts again from its own length"""
+    return strbuf_of(r).high_water <= 23
 
 
 @model('const:smartstring::MAX_INLINE', 'const:MAX_INLINE')
